@@ -51,6 +51,33 @@ pub fn explore(ex: &Ex) {
             }
         });
     }
+    // distinct labels never collide: every ordered pair of different integer labels from [-70, 70]
+    // and the head-width / word-size boundaries (a duplicate detector that hashes, masks or truncates
+    // labels would confuse some pair), opaque values, as a header map and as protected bytes
+    {
+        use gen::{i, u};
+        let mut labs: Vec<i128> = (-70..=70).filter(|v| !(1..=7).contains(v)).collect();
+        for k in [7u32, 8, 15, 16, 31, 32, 63] {
+            let p = 1i128 << k;
+            labs.extend([p - 1, p, -p, -p - 1, -p + 1]);
+        }
+        labs.sort();
+        labs.dedup();
+        labs.retain(|v| *v >= i64::MIN as i128 && *v <= i64::MAX as i128);
+        ex.bound("c08.distinct", "labels", json!(labs.len()));
+        let all = labs.clone();
+        par_partitions(ex.rep, labs, |a, l| {
+            for b2 in &all {
+                if a == b2 {
+                    continue;
+                }
+                l.state(1);
+                let m = gen::map(vec![(i(*a), u(0)), (i(*b2), u(1))]).det();
+                ex.decode(l, "c08.distinct", Ty::Header, Entry::Slice, &m);
+                ex.decode(l, "c08.distinct", Ty::Protected, Entry::Bstr, &super::wrap_bstr(&m));
+            }
+        });
+    }
     // wide maps (size thresholds): many extras around all typed fields, one fault at three positions
     {
         use gen::{b, i, t, u};
